@@ -110,6 +110,34 @@ def handle (z : St) (args : List String) : Option (St × Proto.Out) :=
       | some t => { z with w := w', txs := aset z.txs k (some { t with writes := t.writes ++ [.edge id r] }) }
       | none => { z with w := w', committed := z.committed.apply (.edge id r) }
     pure (z', { model := toString id })
+  -- `CREATE (n:L..) RETURN id(n)` as query text: the operator stamps what `cn` stamps
+  | ["qcn", k, ls] => do
+    let k ← k.toNat?
+    let ls ← parseNatList ls
+    let (w', id) := z.w.createNode k ls
+    let z' := match (aget z.txs k).getD none with
+      | some t => { z with w := w', txs := aset z.txs k (some { t with writes := t.writes ++ [.node id ls] }) }
+      | none => { z with w := w', committed := z.committed.apply (.node id ls) }
+    pure (z', { model := toString id, spec := toString id })
+  -- `MATCH (a) WHERE id(a) = s CREATE (a)-[e:Tt]->(b:Ll) RETURN id(b), id(e)`
+  | ["qce", k, s, t, l] => do
+    let k ← k.toNat?
+    let s ← s.toNat?
+    let t ← t.toNat?
+    let l ← l.toNat?
+    let vis := (z.w.scanAll k).contains s
+    let specVis := (aget (z.view k).nodes s).isSome
+    if vis then
+      let (w1, b) := z.w.createNode k [l]
+      let (w2, e) := w1.createEdge k s b t
+      let ws := [W.node b [l], W.edge e ⟨s, b, t⟩]
+      let z' := match (aget z.txs k).getD none with
+        | some tx => { z with w := w2, txs := aset z.txs k (some { tx with writes := tx.writes ++ ws }) }
+        | none => { z with w := w2, committed := ws.foldl SGraph.apply z.committed }
+      let m := s!"I{b}.I{e}"
+      pure (z', mk' m (if specVis then m else "norows") (classifyExtra z k s))
+    else
+      pure (z, mk' "norows" (if specVis then "created" else "norows") "committed-entity-not-enumerated")
   | ["dbcn", ls] => do
     let ls ← parseNatList ls
     let (s', id) := z.w.store.createNode ls z.w.store.epoch systemTx
